@@ -83,3 +83,22 @@ def build(pgn, src, dst, prio):
 def canonical_pgn(pgn):
     """PGN in canonical form: 18 bits, and PS = 0 for PDU1."""
     return vand(pgn >= 0, pgn < (1 << 18), implies(bits(pgn, 8, 8) < 240, bits(pgn, 0, 8) == 0))
+
+
+# ---- fast packet (C03, C04) ------------------------------------------------------------------
+def nframes(n):
+    return 1 if n <= 6 else 1 + (n - 6 + 6) // 7
+
+
+def chunk(P, i):
+    return P[0:6] if i == 0 else P[6 + 7 * (i - 1): 6 + 7 * i]
+
+
+def frames(P, s):
+    """Frames (lists of byte values) of payload P (list) under sequence counter s."""
+    n = len(P)
+    out = []
+    for i in range(nframes(n)):
+        hdr = [s * 32 + i] + ([n] if i == 0 else [])
+        out.append(hdr + list(chunk(P, i)))
+    return out
